@@ -37,6 +37,7 @@ import (
 )
 
 const fixtureSeq = -1
+const nDust = 12
 
 func newMonitor(r *mon.Run, cfg string) *monitor {
 	m := &monitor{r: r, cfg: cfg, uni: map[common.Address]string{}, named: map[string]common.Address{}, contracts: map[string]common.Address{},
@@ -56,6 +57,16 @@ func newMonitor(r *mon.Run, cfg string) *monitor {
 		}
 		m.keys = append(m.keys, k)
 		name(fmt.Sprintf("key:%d", i), crypto.PubkeyToAddress(k.PublicKey))
+	}
+	// dust senders: keyed accounts that hold nothing until a sequence fills one of
+	// them to an exact threshold balance (see gen.dust)
+	for i := 0; i < nDust; i++ {
+		k, err := crypto.ToECDSA(keccak([]byte(fmt.Sprintf("c06-dust-%d", i))))
+		if err != nil {
+			panic(err)
+		}
+		m.keys = append(m.keys, k)
+		name(fmt.Sprintf("dust:%d", i), crypto.PubkeyToAddress(k.PublicKey))
 	}
 	for i := 1; i <= 18; i++ {
 		name(fmt.Sprintf("pre:%d", i), common.BytesToAddress([]byte{byte(i)}))
@@ -431,13 +442,13 @@ func main() {
 			"empty state with balances in the zero account through the same loop over executor.GetTxExecutor): operator transfers with boundary amount strings and multi-target failures, " +
 			"contract/ETH transactions running hand-assembled EVM programs (CALL/CALLCODE/DELEGATECALL/STATICCALL with value to EOAs, contracts, precompiles, self, through reverting/OOG relays; " +
 			"CREATE/CREATE2 with endowment; SELFDESTRUCT to self/fresh/caller incl. reverted frames), miner apply/add/refund/change-account, refund maturity and block reward blocks, " +
-			"STAKE/UNSTAKE/UNSTAKEALL opcodes; every third regular sequence again with transactions grouped into blocks. Non-trivial: a transaction that changed a universe balance or failed after being given value; distinct by spec",
+			"STAKE/UNSTAKE/UNSTAKEALL opcodes; dust senders of every fee-paying kind filled to exact threshold balances (0, 1 wei, both flat fees -1/0/+1, fee+gas*price+value -1/0/+1, fee+stake -1/0/+1); every third regular sequence again with transactions grouped into blocks. Non-trivial: a transaction that changed a universe balance or failed after being given value; distinct by spec",
 		Assumptions: []string{
 			"registered stake is read with MinerManager.GetMiner and escrow with AccountDB.GetAllRefund (observations of the node's own state, not a model)",
 			"the universe is closed by construction of the generators; closure is proven per sequence by iterating the committed balance trie",
 			"configuration 'empty' replicates VMExecutor.Execute in the harness (core cannot run without a chain); deductGasFee of core is only exercised in configuration 'genesis'",
 		},
 		MustObserve: []string{"fixture_ok", "conservation_checks", "closure_checks", "sums_checked", "tx:transfer:ok", "tx:transfer:failed", "tx:create:ok", "tx:create:failed",
-			"tx:call:ok", "tx:miner-apply:ok", "selfdestruct_ops", "value_moving_frames", "frames_failed", "stake_opcodes", "matured_wei_nonzero", "block_mode_blocks", "trie_slots_iterated"},
+			"tx:call:ok", "tx:miner-apply:ok", "dust_sender_txs", "dust_sender_fee_refused", "dust_sender_fee_paid", "selfdestruct_ops", "value_moving_frames", "frames_failed", "stake_opcodes", "matured_wei_nonzero", "block_mode_blocks", "trie_slots_iterated"},
 	})
 }
